@@ -414,7 +414,8 @@ def run(tier, seed):
         part.counters['equal_pairs_w%d' % w] = len(T)
         part.counters['pair_pool_w%d' % w] = N
     part.counters['ordered_pairs'] = npairs
-    part.samples.append({'pair': 'every ordered pair of the pair pool', 'pool_sizes': {w: len(pair_pool(w)) for w in widths(tier)}})
+    part.samples.append({'pair pool sizes (every ordered pair is compared)': {str(w): len(pair_pool(w)) for w in widths(tier)},
+                         'first equal pair': [irsem.show(pair_pool(true_pairs[0][0])[true_pairs[0][1]]), irsem.show(pair_pool(true_pairs[0][0])[true_pairs[0][2]])] if true_pairs else None})
     rule = ('unary laws (reflexive on fresh copies, hash, copy equal+object-disjoint, visit(identity), canonize value) on every node of '
             'U(w) = pair pool + E1(w) [+ near-equal and targeted families in thorough]; replace_expr on every map with |d|<=2 over the '
             'first 7 sub-terms x 3 replacement terms; equality matrix over ALL ordered pairs of the pair pool P(w) = leaves + exemplars '
